@@ -109,6 +109,14 @@ def oracle_raw(c, ctx):
                 raise Violation("C11|RQS|ends", f"{nm}={p.tolist()} interval=({a},{b}) cfg={cfg}")
             if np.any(np.diff(p) <= 0):
                 raise Violation("C11|RQS|knots_not_increasing", f"{nm}={p.tolist()} cfg={cfg}")
+            # documented floor: widths = (softmax + softmax_adjust/K) / (1 + softmax_adjust) of the interval
+            # (the two outer bins are each half of the first width)
+            K = int(c["knots"])
+            floor = float(c["softmax_adjust"]) / (K * (1 + float(c["softmax_adjust"]))) * (b - a)
+            wd = np.diff(p)
+            if np.any(wd[1:-1] < floor * (1 - 1e-6)) or wd[0] < floor / 2 * (1 - 1e-6):
+                raise Violation("C11|RQS|min_bin_width", f"{nm} widths {wd.tolist()} below the softmax_adjust floor {floor} "
+                                                         f"(softmax_adjust={c['softmax_adjust']}, knots={K}) cfg={cfg}")
         d = finite("RQS", u.derivatives, cfg)
         if np.any(d < c["min_derivative"] * (1 - 8 * EPS)):
             raise Violation("C11|RQS|derivative_below_min", f"derivatives={d.tolist()} min={c['min_derivative']} cfg={cfg}")
